@@ -202,6 +202,52 @@ def build(rng, n, edges, deg, kinds_for, extra_subst=0.25, p_isotope=0.04):
     return m, kind_of, set(edges)
 
 
+
+def polyhex(rng, nhex):
+    """(n, edges, deg) of a random benzenoid: `nhex` hexagons of the honeycomb lattice, edge-connected - cata- AND
+    peri-condensed systems (pyrene, perylene, coronene, benzo[a]pyrene ... and their larger relatives)."""
+    # hexagon (q, r) in axial coordinates; its six corners as lattice points of a doubled triangular grid
+    def corners(q, r):
+        x, y = 3 * q, 2 * r + q          # centre; corners in a skewed integer grid
+        return [(x + 1, y + 1), (x + 2, y), (x + 1, y - 1), (x - 1, y - 1), (x - 2, y), (x - 1, y + 1)]
+    cells = [(0, 0)]
+    chosen = {(0, 0)}
+    while len(chosen) < nhex:
+        q, r = rng.choice(cells)
+        dq, dr = rng.choice([(1, 0), (-1, 0), (0, 1), (0, -1), (1, -1), (-1, 1)])
+        c = (q + dq, r + dr)
+        if c not in chosen:
+            chosen.add(c)
+            cells.append(c)
+    idx = {}
+    edges = set()
+    for (q, r) in sorted(chosen):
+        cs = corners(q, r)
+        for k in range(6):
+            a, b = cs[k], cs[(k + 1) % 6]
+            for p in (a, b):
+                if p not in idx:
+                    idx[p] = len(idx)
+            i, j = idx[a], idx[b]
+            edges.add((min(i, j), max(i, j)))
+    n = len(idx)
+    deg = [0] * n
+    for a, b in edges:
+        deg[a] += 1
+        deg[b] += 1
+    return n, edges, deg
+
+
+def benzenoid_system(rng, nhex=None, hetero=0.0):
+    """A benzenoid (see polyhex) of plain aromatic carbons, a few of them replaced by pyridine-type n (degree 2 only)."""
+    n, edges, deg = polyhex(rng, nhex or rng.choice([3, 4, 5, 6, 8, 10]))
+
+    def kinds_for(v, d):
+        if d == 2 and rng.random() < hetero:
+            return "n"
+        return "c"
+    return build(rng, n, edges, deg, kinds_for, extra_subst=0.05)
+
 def union(parts, extra=None):
     """Disjoint union of (mol, kind_of, arom_edges) triples (plus optional saturated GMols): a multi-fragment molecule."""
     m = GMol()
